@@ -143,7 +143,7 @@ if ROUND == 8:
               "C18P": "cp_als data with a sparsely populated mode (sparse single-mode products)",
               "C19P": "family k_extract: component lists with negative, out-of-range and surplus entries in four spellings",
               "C20P": "teneye of order 6"}
-for d in sorted(SRC.glob("C??[CDEFGHIJKLMNOP]")):
+for d in sorted(SRC.glob("C??[CDEFGHIJKLMNOPQ]")):
     rj = d / "result.json"
     if not rj.exists():
         print(d.name, "no result"); continue
